@@ -593,6 +593,12 @@ structure Par where
 
 def parInit (replies : List Bytes) : Par := { replies := replies, pcs := replies.map fun _ => .waiting }
 
+/-- some of the asked nodes cannot be reached (`none`): `c.Send` to them fails, their routine
+reports the error on `errChan` and never enters the critical section -/
+def parInitF (replies : List (Option Bytes)) : Par :=
+  { replies := replies.map (fun r => r.getD []),
+    pcs := replies.map fun r => if r.isSome then .waiting else .finished }
+
 /-- routine `i` performs its next action -/
 def parStep (lockedDecode : Bool) (p : Par) (i : Nat) : Option Par :=
   match p.pcs[i]?, p.replies[i]? with
@@ -1174,7 +1180,11 @@ def step (s : State) (toks : List String) : State × String :=
     -- that the reply handed back is the one of the node handed back does not (`c14_parallel_pair`)
     match nodes.toNat?, nonce.toInt? with
     | some n, some _ =>
-      (s, if 3 ≤ n ∧ (mode = "overlap" ∨ mode = "plain" ∨ mode = "ordered" ∨ mode = "quit") then "ok pair" else "bad-op")
+      -- modes with unreachable nodes: `down1`, `down2` — the others answer (`c14_parallel_pair_with_failures`);
+      -- `downall` — nobody answers; `downquit` — the first error ends the call
+      (s, if 3 ≤ n ∧ (mode = "overlap" ∨ mode = "plain" ∨ mode = "ordered" ∨ mode = "quit" ∨ mode = "down1" ∨ mode = "down2")
+          then "ok pair"
+          else if 3 ≤ n ∧ (mode = "downall" ∨ mode = "downquit") then "err" else "bad-op")
     | _, _ => (s, "bad-op")
   | ["all", _thr, _client, n, path, buf] =>
     -- `Client.SendToAll` (websocket_client.go:508-525): `Send` to each of the n servers in turn; every
